@@ -87,6 +87,15 @@ pub fn swap(
         adaptive_fee_info,
     )?;
 
+    #[cfg(feature = "verif")]
+    crate::verif_hooks::record_swap(crate::verif_hooks::SwapTrace::Begin {
+        a_to_b,
+        amount,
+        amount_specified_is_input,
+        sqrt_price: curr_sqrt_price,
+        liquidity: curr_liquidity,
+    });
+
     while amount_remaining > 0 && adjusted_sqrt_price_limit != curr_sqrt_price {
         let (next_array_index, next_tick_index) = swap_tick_sequence
             .get_next_initialized_tick_index(
@@ -115,6 +124,25 @@ pub fn swap(
                 amount_specified_is_input,
                 a_to_b,
             )?;
+
+            #[cfg(feature = "verif")]
+            crate::verif_hooks::record_swap(crate::verif_hooks::SwapTrace::Step(
+                crate::verif_hooks::SwapStepRecord {
+                    amount_remaining_before: amount_remaining,
+                    sqrt_price_before: curr_sqrt_price,
+                    next_tick_index,
+                    next_tick_sqrt_price,
+                    sqrt_price_target,
+                    bounded_sqrt_price_target,
+                    liquidity: curr_liquidity,
+                    total_fee_rate,
+                    amount_in: swap_computation.amount_in,
+                    amount_out: swap_computation.amount_out,
+                    fee_amount: swap_computation.fee_amount,
+                    next_price: swap_computation.next_price,
+                    skipped: adaptive_fee_update_skipped,
+                },
+            ));
 
             if amount_specified_is_input {
                 amount_remaining = amount_remaining
@@ -174,6 +202,17 @@ pub fn swap(
                         fee_growth_global_b,
                         &next_reward_infos,
                     )?;
+
+                    #[cfg(feature = "verif")]
+                    crate::verif_hooks::record_swap(crate::verif_hooks::SwapTrace::Cross(
+                        crate::verif_hooks::TickCrossRecord {
+                            tick_index: next_tick_index,
+                            liquidity_net: next_tick.unwrap().liquidity_net,
+                            a_to_b,
+                            liquidity_before: curr_liquidity,
+                            liquidity_after: next_liquidity,
+                        },
+                    ));
 
                     curr_liquidity = next_liquidity;
                     swap_tick_sequence.update_tick(
